@@ -73,6 +73,8 @@ pub fn run(o: &Opts) -> i32 {
     let fixed: Vec<Vec<&str>> = vec![
         vec!["1+1", "3 hours", "ans"], vec!["0", "1 -> ans;ans"], vec!["ans"], vec!["5", "nosuch", "ans"], vec!["5", "meter", "ans"],
         vec!["5", "10 m -> ft", "ans"], vec!["2 m", "ans^2", "ans -> ft^2", "ans"],
+        vec!["3^700 + 1", "ans - 3^700"], vec!["7^400 / 3^300", "ans * 3^300 - 7^400"], vec!["2^5000 m", "ans / 2^4999"], vec!["1|3^900", "1 / ans - 3^900"],
+        vec!["(now - #2000-01-01 00:00:00 +00:00#)/s", "(now - #2000-01-01 00:00:00 +00:00#)/s", "1 + 1", "(now - #2000-01-01 00:00:00 +00:00#)/s"],
         vec!["2 m", "asin(2)", "ans"], vec!["3", "ln(-1)", "ans + 1"], vec!["7 kg", "exp(1000)", "ans"], vec!["4", "ln(0)", "ans", "ans * 0"],
     ];
     for s in &fixed {
